@@ -137,12 +137,34 @@ def conversions(ctx, obs, rule='CONV'):
     til = [c for c in ast.walk(f.node) if isinstance(c, ast.Call) and isinstance(c.func, ast.Attribute) and c.func.attr == 'tile']
     obs.check(bool(rep) and bool(til), rule, q, 'channel descriptors are repeated per time point and time descriptors tiled '
               'per channel', 'np.repeat / np.tile pair not found', '', where(prog, f, f.node))
+    # names of the sizes: a, b, c = self.measurements.shape  -> (n_obs, n_channel, n_time)
+    sizes = None
+    for st in ast.walk(f.node):
+        if isinstance(st, ast.Assign) and isinstance(st.targets[0], ast.Tuple) and len(st.targets[0].elts) == 3 \
+                and isinstance(st.value, ast.Attribute) and st.value.attr == 'shape' \
+                and all(isinstance(t, ast.Name) for t in st.targets[0].elts):
+            sizes = [t.id for t in st.targets[0].elts]
+
+    def size_kind(e):
+        if isinstance(e, ast.Name) and sizes and e.id in sizes:
+            return ('obs', 'chan', 'time')[sizes.index(e.id)]
+        if isinstance(e, ast.Attribute) and e.attr in ('n_time', 'n_channel', 'n_obs'):
+            return {'n_time': 'time', 'n_channel': 'chan', 'n_obs': 'obs'}[e.attr]
+        return None
     for c in rep:
-        obs.check(len(c.args) == 2 and isinstance(c.args[1], ast.Name) and c.args[1].id == 'n_tps', rule, q,
-                  'channel descriptors are repeated n_time times', f'`{norm(c)}`', '', where(prog, f, c))
+        k = size_kind(c.args[1]) if len(c.args) == 2 else None
+        if k is None:
+            obs.unk(rule, q, 'channel descriptors are repeated n_time times', f'`{norm(c)}`: repeat count not recognised')
+        else:
+            obs.check(k == 'time', rule, q, 'channel descriptors are repeated n_time times',
+                      f'`{norm(c)}` repeats by the number of {k}s', '', where(prog, f, c))
     for c in til:
-        obs.check(len(c.args) == 2 and isinstance(c.args[1], ast.Name) and c.args[1].id == 'n_chans', rule, q,
-                  'time descriptors are tiled n_channel times', f'`{norm(c)}`', '', where(prog, f, c))
+        k = size_kind(c.args[1]) if len(c.args) == 2 else None
+        if k is None:
+            obs.unk(rule, q, 'time descriptors are tiled n_channel times', f'`{norm(c)}`: tile count not recognised')
+        else:
+            obs.check(k == 'chan', rule, q, 'time descriptors are tiled n_channel times',
+                      f'`{norm(c)}` tiles by the number of {k}s', '', where(prog, f, c))
     # time_as_observations: measurements and obs descriptors grow in the same loop, time descriptor repeated n_obs times
     q = D + 'TemporalDataset.time_as_observations'
     f = prog.func(q)
@@ -169,6 +191,11 @@ def average(ctx, obs, rule='AXIS-pair'):
     f = prog.func(q)
     # rows selected by (inverse == i) are averaged over axis 0 and stored at row i; labels are the unique values
     ok_sel = ok_mean = ok_store = False
+    r0 = ctx.dep.result(q)
+    avg = None
+    for node, _, _ in r0.returns:
+        if node is not None and isinstance(node.value, ast.Tuple) and node.value.elts and isinstance(node.value.elts[0], ast.Name):
+            avg = node.value.elts[0].id
     for n in ast.walk(f.node):
         if isinstance(n, ast.Subscript) and isinstance(n.value, ast.Attribute) and n.value.attr == 'measurements' \
                 and isinstance(n.slice, ast.Tuple) and isinstance(n.slice.elts[0], ast.Compare):
@@ -177,7 +204,7 @@ def average(ctx, obs, rule='AXIS-pair'):
             ax = next((k.value for k in n.keywords if k.arg == 'axis'), None)
             ok_mean = ok_mean or (isinstance(ax, ast.Constant) and ax.value == 0)
         if isinstance(n, ast.Assign) and isinstance(n.targets[0], ast.Subscript) and isinstance(n.targets[0].value, ast.Name) \
-                and n.targets[0].value.id == 'average':
+                and n.targets[0].value.id == avg:
             ok_store = True
     obs.check(ok_sel, rule, q, 'rows of a condition are selected on the observation axis by the label index',
               'no measurements[inverse == i, :] selection', '', where(prog, f, f.node))
